@@ -329,10 +329,49 @@ def build_circular(env, limiter, guards):
     return eq, mesh, t, sym
 
 
+def build_torpex(env, guards):
+    """isolated X-point with four legs ending on the wall (TORPEX): real TORPEXMagneticField.makeRegions with symbolic sizes"""
+    import hypnotoad.cases.torpex as tpx
+    eq = tpx.TORPEXMagneticField.__new__(tpx.TORPEXMagneticField)
+    settings = {"y_boundary_guards": guards, "psi_core": 0.9, "psi_sol": 1.2, "refine_methods": "line"}
+    real = tpx.TORPEXMagneticField.user_options_factory.create(settings)
+    sym = {n: env.int(n, lo=1) for n in ("nx_core", "nx_sol", "ny_inner_lower_divertor", "ny_inner_upper_divertor",
+                                          "ny_outer_upper_divertor", "ny_outer_lower_divertor")}
+    over = dict(sym, psi_sol=1.2, psi_sol_inner=1.2, psi_pf_lower=0.9, psi_pf_upper=0.9, psi_core=0.9, psi_pf=0.9)
+    eq.user_options = real
+    eqm.Equilibrium.__init__(eq, {})
+    eq.user_options = OptProxy(real, over)
+    eq.x_points, eq.psi_sep = [Point2D(1.0, 0.0)], [1.0]
+    eq.psi = lambda R, Z: 1.0
+    eq.f_R = eq.f_Z = None
+    eq.Rmin, eq.Rmax, eq.Zmin, eq.Zmax = 0, 2, -1, 1
+    eq.findRoots_1d = lambda f, n, lo, hi: [0.125, 0.375, 0.625, 0.875]
+    eq.wallPosition = lambda sp: Point2D(1.0 + numpy.cos(2 * numpy.pi * sp), numpy.sin(2 * numpy.pi * sp))
+    eq.wallVector = lambda sp: numpy.array([1.0, 0.0])
+    eq.getSmoothMonotonicGridFunc = lambda *a, **k: None
+    eq.make1dGrid = lambda n, f: FakeVals(n)
+
+    class Leg(eqm.EquilibriumRegion):
+        def getRefined(self, **kw):
+            return self
+
+    with patched((tpx, "EquilibriumRegion", Leg)), contextlib.redirect_stdout(io.StringIO()):
+        eq.makeRegions()
+        for r in eq.regions.values():
+            r.getRegridded = (lambda rr: (lambda **k: rr))(r)
+        with patched((meshm, "MeshRegion", StubRegion)):
+            mesh = meshm.BoutMesh(eq, settings)
+    fn, info = topo_slice()
+    t = fn(mesh, None)
+    return eq, mesh, t, sym
+
+
 def _mk(kind, guards, suo=False):
     def body(env):
         if kind in ("circular_core", "circular_limiter"):
             eq, mesh, t, sym = build_circular(env, kind == "circular_limiter", guards)
+        elif kind == "xpoint":
+            eq, mesh, t, sym = build_torpex(env, guards)
         else:
             eq, mesh, t, sym = build(env, kind, guards, suo)
         env.witness("descriptor_built")
@@ -403,6 +442,10 @@ def _mk(kind, guards, suo=False):
         if kind in ("circular_core", "circular_limiter"):
             env.claim("topology_indices_in_range", ZB(z3.And(j11 >= -1, j11 <= j21, j21 <= j12, j12 <= j22, j22 <= nyng - 1)))
             env.claim("ixseps_core_only_or_sol_only", ZB(z3.And(ix1 == ix2, (ix1 == nx) if kind == "circular_core" else (ix1 <= 0))))
+        elif kind == "xpoint":
+            # four legs, no core: both "X-points" of BOUT++'s description coincide, the private regions are x < ixseps1 = ixseps2
+            env.claim("ordering_isolated_xpoint", ZB(z3.And(j11 >= 0, j11 == j21, j21 < nyi - 1, nyi - 1 < j12, j12 == j22, j22 < nyng - 1)))
+            env.claim("ixseps_isolated_xpoint", ZB(z3.And(ix1 == ix2, ix1 >= 1, ix1 < nx)))
         elif kind in ("lsn", "usn"):
             env.claim("ordering_single_null", ZB(z3.And(j11 >= -1, j11 < j21, j21 == j12, j12 <= j22, j22 <= nyng - 1)))
             env.claim("ixseps_single_null", ZB(z3.And(ix1 >= 1, ix1 < nx, ix2 == nx)))
@@ -448,3 +491,10 @@ for _kind in ("circular_core", "circular_limiter"):
                               desc="circular geometry: tiling, connections, BOUT++ decoding of the written integers == hypnotoad adjacency (periodic core / limiter targets), index ranges, chi mask",
                               encodes=["hypnotoad.cases.circular:CircularEquilibrium.makeRegion"] + ENC[3:], stubs=["psi_r", "MeshRegion -> record", "psi_vals -> placeholder"],
                               bounds="nx, ny >= 1 symbolic, y_boundary_guards=%d" % _g))
+
+for _g in (0, 1, 2, 3):
+    OBLIGATIONS.append(Ob("topology_xpoint_guards%d" % _g, _mk("xpoint", _g), tier="quick" if _g in (0, 2) else "thorough", family="topology:xpoint",
+                          desc="isolated X-point with four legs on the wall (TORPEX): tiling, connections, BOUT++ decoding of the written integers == hypnotoad adjacency, ordering",
+                          encodes=["hypnotoad.cases.torpex:TORPEXMagneticField.makeRegions"] + ENC[3:],
+                          stubs=["findRoots_1d", "wallPosition", "wallVector", "getRefined -> identity", "getSmoothMonotonicGridFunc/make1dGrid -> placeholder", "MeshRegion -> record"],
+                          bounds="nx_core, nx_sol and the four leg ny >= 1 symbolic (unbounded), y_boundary_guards=%d" % _g))
